@@ -8,28 +8,61 @@ from harness.grouplib import COQ_HEADER, COQ_RUNNER, COQ_TYPES, SHARD
 PROP = 'C11'
 PROPS_FILE = 'Props/C11.v'
 PARALLEL = False
-RULE = ('real compute_features_2d(axis=0) / BycycleGroup.fit on 2-7 pairwise different signals, shared dict vs per-row list '
-        'of pairwise different option sets, every n_jobs from 1 to rows+3 and -1 (so that rows are not a multiple of the job count), progress in {None, "tqdm"}, return_samples both; '
-        'the worker is wrapped (before the fork) to sleep so that earlier rows finish later (reverse / first-slow / zigzag '
-        'schedules); every returned table is matched against the tables of all (option set, row) pairs computed directly, '
-        'giving a placement vector compared with the model; non-trivial = >= 3 rows and a perturbed schedule or a per-row list')
+RULE = ('real compute_features_2d(axis=0) / BycycleGroup.fit on 1-7 pairwise different signals; option argument not given / None '
+        '(default options), a shared dict, or a per-row list of pairwise different option sets (a one-element list for a '
+        'one-row array), some dicts carrying a "return_samples" entry (documented as ignored); every n_jobs from 1 to rows+3 '
+        'and -1 (so that rows are not a multiple of the job count); progress in {None, "tqdm", "tqdm.notebook"} with an '
+        'in-process stand-in for the tqdm modules (not installed here) so that the real wrapper branch runs; return_samples '
+        'both; the worker is wrapped (before the fork) to sleep so that earlier rows finish later (reverse / first-slow / '
+        'zigzag schedules) and to log its completion; every returned table is matched against the tables of all '
+        '(option set, row) pairs computed directly, giving a placement vector compared with the model, which is evaluated '
+        'on the OBSERVED completion order; non-trivial = >= 3 rows and a perturbed schedule or a per-row list')
 ASSUMPTIONS = ['the multiprocessing runtime is exercised only under the injected schedules; the theorem covers all permutations '
-               'of completion order for the reorder-buffer model of Pool.imap']
+               'of completion order for the reorder-buffer model of Pool.imap',
+               'the progress wrapper is exercised with a stand-in tqdm (iterates the wrapped iterable unchanged, as tqdm does); '
+               'the real tqdm package is outside the check']
 TRUST = ['Pool.imap is modelled as a reorder buffer keyed by submission index']
+PROGRESS = {'cases_with_progress': 0, 'stub_wrapped_the_result_iterator': 0, 'stub_total_equals_rows': 0,
+            'stub_items_pulled_equals_rows': 0, 'by_module': {}}
+
+
+def _mode(c):
+    if 'kwmode' in c:
+        return c['kwmode']
+    return 'list' if c.get('kw') is not None else 'dict'
+
+
+def _case(rng, rows, kwmode, via=None):
+    kw = rng.sample(range(len(gl.KW_POOL)), rows) if kwmode == 'list' else None
+    if via is None:
+        via = 'func' if kwmode == 'list' else rng.choice(['func', 'func', 'group'])
+    # a 'return_samples' entry inside option dicts: None = absent, else its value (documented: ignored)
+    n_entries = rows if kwmode == 'list' else (1 if kwmode == 'dict' else 0)
+    return_samples = rng.random() < 0.7
+    rs_key = [(rng.choice([not return_samples, not return_samples, return_samples]) if rng.random() < 0.35 else None)
+              for _ in range(n_entries)]
+    if via == 'group':
+        rs_key = [None] * n_entries
+    return {'kind': 'g2d/' + kwmode, 'rows': rows, 'sig_ids': rng.sample(range(40), rows), 'kwmode': kwmode,
+            'kw': kw, 'shared': rng.randrange(len(gl.KW_POOL)), 'rs_key': rs_key,
+            'omit_arg': kwmode == 'none' and rng.random() < 0.5,
+            'n_jobs': rng.choice([1, 2, 3, 4, max(1, rows - 1), max(1, rows - 2), rows, rows + 3, -1]),
+            'progress': rng.choice([None, None, 'tqdm', 'tqdm.notebook']),
+            'schedule': rng.choice(['reverse', 'first_slow', 'zigzag', 'none']),
+            'return_samples': return_samples, 'layout': rng.choice(['C', 'C', 'F', 'view']), 'via': via}
 
 
 def cases(rng, tier):
     out = []
-    n = 60 if tier == 'quick' else 500
+    n = 64 if tier == 'quick' else 520
     for _ in range(n):
         rows = rng.choice([2, 3, 4, 5, 5, 6, 7])
-        per_row = rng.random() < 0.55
-        kw = rng.sample(range(len(gl.KW_POOL)), rows) if per_row else None
-        shared = rng.randrange(len(gl.KW_POOL))
-        out.append({'kind': 'g2d/' + ('list' if per_row else 'dict'), 'rows': rows, 'sig_ids': rng.sample(range(40), rows),
-                    'kw': kw, 'shared': shared, 'n_jobs': rng.choice([1, 2, 3, 4, max(1, rows - 1), max(1, rows - 2), rows, rows + 3, -1]),
-                    'progress': rng.choice([None, None, 'tqdm']), 'schedule': rng.choice(['reverse', 'first_slow', 'zigzag', 'none']),
-                    'return_samples': rng.random() < 0.7, 'layout': rng.choice(['C', 'C', 'F', 'view']), 'via': (rng.choice(['func', 'func', 'group']) if kw is None else 'func')})
+        r = rng.random()
+        out.append(_case(rng, rows, 'list' if r < 0.5 else ('dict' if r < 0.82 else 'none')))
+    # one-row arrays: option argument absent, a dict, a one-element list (the len(kwargs) > 1 switch); both entry points
+    for rep in range(1 if tier == 'quick' else 6):
+        for kwmode, via in (('none', 'func'), ('dict', 'func'), ('list', 'func'), ('dict', 'group'), ('none', 'group')):
+            out.append(_case(rng, 1, kwmode, via))
     return out
 
 
@@ -37,47 +70,90 @@ def run_impl(c):
     import io, contextlib
     from bycycle.features import compute_features
     from bycycle.group import compute_features_2d
+    mode = _mode(c)
     sigs = gl.relayout(np.array([gl.make_sig(k) for k in c['sig_ids']]), c.get('layout', 'C'))
-    if c['via'] == 'group' and c['kw'] is not None:
+    if c['via'] == 'group' and mode == 'list':
         c = dict(c, via='func')
-    kwobj = [dict(gl.KW_POOL[a]) for a in c['kw']] if c['kw'] is not None else dict(gl.KW_POOL[c['shared']])
+    rs_key = c.get('rs_key') or []
+    if mode == 'list':
+        kwobj = [gl.option_set(a, rs_key[i] if i < len(rs_key) else None) for i, a in enumerate(c['kw'])]
+    elif mode == 'dict':
+        kwobj = gl.option_set(c['shared'], rs_key[0] if rs_key else None)
+    else:
+        kwobj = None
+    stub = gl.ProgressStub().install() if c['progress'] else None
     orig = gl.install_delays([s for s in sigs], c['schedule'])
     out = {}
+    err = None
     try:
         with contextlib.redirect_stdout(io.StringIO()):
             if c['via'] == 'group':
                 from bycycle import BycycleGroup
-                kw = gl.KW_POOL[c['shared']]
-                bg = BycycleGroup(center_extrema=kw['center_extrema'], burst_method=kw.get('burst_method', 'cycles'),
-                                  thresholds=dict(kw['threshold_kwargs']), find_extrema_kwargs=kw.get('find_extrema_kwargs'),
-                                  return_samples=c['return_samples'])
+                if mode == 'none':
+                    bg = BycycleGroup(return_samples=c['return_samples'])
+                else:
+                    kw = gl.KW_POOL[c['shared']]
+                    bg = BycycleGroup(center_extrema=kw['center_extrema'], burst_method=kw.get('burst_method', 'cycles'),
+                                      thresholds=dict(kw['threshold_kwargs']), find_extrema_kwargs=kw.get('find_extrema_kwargs'),
+                                      return_samples=c['return_samples'])
                 bg.fit(sigs, gl.FS, gl.FR, axis=0, n_jobs=c['n_jobs'], progress=c['progress'])
                 dfs = bg.df_features
                 out['models_ok'] = bool(len(bg.models) == len(sigs) and all(
                     bg.models[i].df_features is dfs[i] and np.array_equal(bg.models[i].sig, sigs[i]) for i in range(len(sigs))))
+            elif mode == 'none' and c.get('omit_arg'):
+                dfs = compute_features_2d(sigs, gl.FS, gl.FR, axis=0,
+                                          return_samples=c['return_samples'], n_jobs=c['n_jobs'], progress=c['progress'])
             else:
                 dfs = compute_features_2d(sigs, gl.FS, gl.FR, compute_features_kwargs=kwobj, axis=0,
                                           return_samples=c['return_samples'], n_jobs=c['n_jobs'], progress=c['progress'])
     except Exception as e:
-        gl.uninstall(orig)
-        return {'err': exc_kind(e), 'msg': str(e)[:200]}
-    gl.uninstall(orig)
-    kws = c['kw'] if c['kw'] is not None else [c['shared']]
+        err = {'err': exc_kind(e), 'msg': str(e)[:200]}
+    finally:
+        observed = gl.uninstall(orig, c['schedule'])
+        pbar = stub.uninstall() if stub is not None else None
+    if pbar is not None:
+        out['pbar'] = pbar
+        PROGRESS['cases_with_progress'] += 1
+        if pbar['calls']:
+            PROGRESS['stub_wrapped_the_result_iterator'] += 1
+            PROGRESS['by_module'][pbar['module']] = PROGRESS['by_module'].get(pbar['module'], 0) + 1
+            PROGRESS['stub_total_equals_rows'] += (pbar['total'] == len(sigs))
+            PROGRESS['stub_items_pulled_equals_rows'] += (pbar['pulled'] + pbar['updated'] == len(sigs))
+    out['completion'] = observed
+    if err is not None:
+        out.update(err)
+        return out
+    if mode == 'list':
+        kws = [(a, a) for a in sorted(set(c['kw']))]
+    elif mode == 'dict':
+        kws = [(gl.SHARED_ID, c['shared'])]
+    else:
+        kws = [(gl.NONE_ID, None)]
     cands = {}
-    for a in set(kws):
+    for aid, a in kws:
         for b in range(len(sigs)):
-            kw = dict(gl.KW_POOL[a])
-            if c['via'] == 'group' and 'find_extrema_kwargs' not in kw:
+            kw = gl.option_set(a) if a is not None else {}
+            if c['via'] == 'group' and a is not None and 'find_extrema_kwargs' not in kw:
                 kw['find_extrema_kwargs'] = None
-            cands[(a if c['kw'] is not None else gl.SHARED_ID, b, 0)] = compute_features(
-                sigs[b], gl.FS, gl.FR, return_samples=c['return_samples'], **kw)
+            cands[(aid, b, 0)] = compute_features(sigs[b], gl.FS, gl.FR, return_samples=c['return_samples'], **kw)
+    try:
+        dfs = list(dfs)
+    except TypeError:
+        dfs = []
     placement = []
     for i, df in enumerate(dfs):
-        prefer = ((c['kw'][i] if c['kw'] is not None else gl.SHARED_ID), i, 0)
-        placement.append(gl.match(df, cands, prefer))
+        prefer = (_want_id(c, i), i, 0)
+        placement.append(gl.match(df, cands, prefer) if hasattr(df, 'columns') else [gl.MISSING] * 3)
     out['placement'] = [placement]
     out['n'] = len(dfs)
     return out
+
+
+def _want_id(c, i):
+    mode = _mode(c)
+    if mode == 'list' and c['via'] != 'group':
+        return c['kw'][i] if i < len(c['kw']) else gl.MISSING
+    return gl.NONE_ID if mode == 'none' else gl.SHARED_ID
 
 
 def oracle(c, o):
@@ -86,26 +162,34 @@ def oracle(c, o):
     if o['n'] != c['rows']:
         return '%d tables returned for %d rows' % (o['n'], c['rows'])
     for i, t in enumerate(o['placement'][0]):
-        want = [(c['kw'][i] if (c['kw'] is not None and c['via'] != 'group') else gl.SHARED_ID), i, 0]
+        want = [_want_id(c, i), i, 0]
         if t != want:
-            return 'position %d holds the analysis (options, row) = %s, expected %s' % (i, t[:2], want[:2])
+            return 'position %d holds the analysis (options, row) = %s, expected %s%s' % (
+                i, t[:2], want[:2], ' [progress=%s]' % c['progress'] if c.get('progress') else '')
     if o.get('models_ok') is False:
         return 'BycycleGroup.models do not mirror df_features / sigs position by position'
     return None
 
 
 def nontrivial(c, o):
-    return 'placement' in o and c['rows'] >= 3 and (c['schedule'] != 'none' or c['kw'] is not None)
+    return 'placement' in o and c['rows'] >= 3 and (c['schedule'] != 'none' or _mode(c) == 'list')
 
 
 def kind_of(c, o):
-    return '%s/%s/jobs%s' % (c['kind'], c['schedule'], 'gt' if c['n_jobs'] > c['rows'] else ('all' if c['n_jobs'] == -1 else c['n_jobs']))
+    jobs = 'gt' if c['n_jobs'] > c['rows'] else ('all' if c['n_jobs'] == -1 else c['n_jobs'])
+    return 'g2d/%s/%s/jobs%s%s' % (_mode(c), c['schedule'], jobs, '/1row' if c['rows'] == 1 else '')
+
+
+def extra_evidence():
+    return {'progress_wrapper': dict(PROGRESS), 'completion_order_observed': dict(gl.STATS)}
 
 
 def coq_case(c, o):
-    if 'err' in o:
+    if 'err' in o or 'placement' not in o:
         return None
-    per_row = c['kw'] is not None and c['via'] != 'group'
-    kw = '(Some %s)' % gl.nat_list(c['kw']) if per_row else 'None'
-    inp = '(G2 %s %s %d%%nat)' % (gl.nat_list(gl.sigma_of(c['schedule'], c['rows'])), kw, c['rows'])
+    mode = _mode(c)
+    if mode == 'list' and c['via'] == 'group':
+        mode = 'dict'
+    inp = '(G2 %s %s %d%%nat)' % (gl.nat_list(gl.sigma_for(c['schedule'], c['rows'], o.get('completion'))),
+                                  gl.kw_term(mode, c['kw']), c['rows'])
     return inp, gl.coq_triples(o['placement'])
